@@ -39,18 +39,21 @@ type lcProc struct {
 }
 
 type lcSys struct {
-	mu     sync.Mutex
-	cache  *lru.ECache[string, string, int]
-	cap    int
-	procs  []*lcProc
-	byGo   sync.Map
-	events []map[string]any
-	seq    int
-	vid    int
-	gated  bool
-	nreal  int
-	rnd    *rand.Rand
-	tick   chan struct{}
+	slowDel time.Duration
+	delSeen chan struct{} // closed when the first delete callback of the big Clear runs
+	delOnce sync.Once
+	mu      sync.Mutex
+	cache   *lru.ECache[string, string, int]
+	cap     int
+	procs   []*lcProc
+	byGo    sync.Map
+	events  []map[string]any
+	seq     int
+	vid     int
+	gated   bool
+	nreal   int
+	rnd     *rand.Rand
+	tick    chan struct{}
 }
 
 func pkName(pk int) string {
@@ -144,6 +147,11 @@ func newLcSys(capacity, nprocs int, gated bool, seed int64) (*lcSys, error) {
 		s.mu.Lock()
 		s.ev(map[string]any{"e": "del", "p": pid, "pk": pkNum(pk), "vid": v})
 		s.mu.Unlock()
+		if s.slowDel > 0 {
+			// a delete callback that takes its time: callers queue up behind the operation that runs it
+			s.delOnce.Do(func() { close(s.delSeen) })
+			time.Sleep(s.slowDel)
+		}
 	}
 	c, err := lru.NewECache[string, string, int](capacity, strings.ToLower, create, onDelete)
 	if err != nil {
@@ -470,6 +478,44 @@ func (s *lcSys) runStress(rounds int, keys []int) {
 	}
 }
 
+func (s *lcSys) call(pid int, op string, pk int) {
+	p := s.procs[pid]
+	s.start(pid, op, pk)
+	for {
+		s.mu.Lock()
+		b := p.busy
+		s.mu.Unlock()
+		if !b {
+			return
+		}
+		runtime.Gosched()
+	}
+}
+
+func (s *lcSys) runBigClear(n int, r *rand.Rand) {
+	for k := 0; k < n; k++ {
+		s.call(1, "get", 10+k)
+	}
+	s.slowDel, s.delSeen = 60*time.Microsecond, make(chan struct{})
+	var wg sync.WaitGroup
+	for pid := 2; pid <= 3; pid++ {
+		wg.Add(1)
+		seed := r.Int63()
+		go func(pid int) {
+			defer wg.Done()
+			rr := rand.New(rand.NewSource(seed))
+			<-s.delSeen // the Clear is under way: now ask for keys it has removed / is about to remove
+			for i := 0; i < 6; i++ {
+				s.call(pid, "get", 10+rr.Intn(n))
+			}
+		}(pid)
+	}
+	s.call(1, "clear", 0)
+	wg.Wait()
+	s.slowDel = 0
+	s.finalClear()
+}
+
 func driveLruConc(opt *Options) error {
 	mode := opt.Extra["mode"]
 	quiet := 300 * time.Microsecond
@@ -569,6 +615,21 @@ func driveLruConc(opt *Options) error {
 				return err
 			}
 			s.runStress(6, []int{1, 2, 3, -1, 4, 5}[:2+r.Intn(5)])
+			flush(s, true)
+		}
+	case "bigclear":
+		// Clear of several hundred resident values while other callers keep asking for the same keys: Clear is ONE
+		// operation (everything it removes was resident at one instant, nothing created meanwhile is touched)
+		for i := 0; i < opt.N; i++ {
+			if giveUp() {
+				break
+			}
+			r := rand.New(rand.NewSource(opt.Seed*6007 + int64(i)))
+			s, err := newLcSys(2000, 4, false, r.Int63())
+			if err != nil {
+				return err
+			}
+			s.runBigClear(690+r.Intn(40), r) // (one creation in six fails: about 590 values are resident)
 			flush(s, true)
 		}
 	default:
